@@ -133,12 +133,13 @@ def _limit_endpoint(
     s_l: torch.Tensor,
     s_r: torch.Tensor,
 ) -> torch.Tensor:
-    # If derivative points opposite to the first secant, zero it
-    mask_sign_change = d_end * s_l < 0
+    # If derivative points opposite to the first secant (or that secant is zero), zero it.
+    # Signs are compared instead of products, which underflow for tiny values.
+    mask_sign_change = torch.sign(d_end) != torch.sign(s_l)
     d_end = torch.where(mask_sign_change, torch.zeros_like(d_end), d_end)
 
     # If secants switch sign, cap magnitude to 3*|s_l|
-    mask_sign_change = s_l * s_r < 0
+    mask_sign_change = torch.sign(s_l) != torch.sign(s_r)
     mask_cap = mask_sign_change & (torch.abs(d_end) > 3.0 * torch.abs(s_l))
     return torch.where(mask_cap, 3.0 * s_l, d_end)
 
@@ -170,7 +171,8 @@ def _pchip_derivatives(
     delta_l, delta_r = delta[:-1], delta[1:]
     h_l, h_r = h[:-1], h[1:]
 
-    mask_same_sign = (delta_l * delta_r) > 0  # excludes zeros + sign changes
+    # excludes zeros + sign changes
+    mask_same_sign = (torch.sign(delta_l) * torch.sign(delta_r)) > 0
     dh = _weighted_harmonic_mean(delta_l, delta_r, h_l, h_r)
     d[1:-1] = torch.where(mask_same_sign, dh, torch.zeros_like(dh))
 
